@@ -37,12 +37,19 @@ Theorem C14_history_independent_refuted_stale :
 Proof. exists W, h_stale, find_late. destruct refuted_stale. auto. Qed.
 Print Assumptions C14_history_independent_refuted_stale.
 
-(* (c) local_names_match prunes classes it cannot build from the index *)
-Theorem C14_history_independent_refuted_prune :
-  exists w0 h s, world_ok w0 = true /\ ~ history_independent_at w0 h s
-                 /\ modules_stable h = true.
-Proof. exists W, h_prune, find_broken. destruct refuted_prune. auto. Qed.
-Print Assumptions C14_history_independent_refuted_prune.
+(* (c) until /repo c28ded8 local_names_match pruned classes it cannot build from the index
+   (C14_history_independent_refuted_prune: a typeless decode made find_type lose the class;
+   a second local_names_match raised ValueError).  Repaired: such classes are remembered in
+   a separate set, a pure memo.  The refutation and its guard clause are deleted; the old
+   witnesses are inside the guard and history independent now: *)
+Theorem C14_former_pruned_index_harmless :
+  history_independent_at W h_prune find_broken
+  /\ history_independent_at W [HRun (op_script W (OCall CBuildXsi)); HRun names_broken] names_broken
+  /\ hist_guard W (h_prune ++ [HRun names_broken; HRun names_broken]) find_broken = true.
+Proof.
+  split; [exact former_prune_harmless|]. split; [exact former_value_error_harmless|exact former_prune_guarded].
+Qed.
+Print Assumptions C14_former_pruned_index_harmless.
 
 (* (d) build_recursive stops at a cached class *)
 Theorem C14_history_independent_refuted_rec :
@@ -58,8 +65,7 @@ Print Assumptions C14_history_independent_refuted_rec.
                                           (a) all requests for one class (parent namespaces actually
                                               passed to XmlContext.build during the history, during s,
                                               and during s on fresh instances) give the same metadata
-     && quiet t_shared && quiet t_fresh   (c) no class was pruned from the index,
-                                          (d) build_recursive met no unbuildable class below its argument.
+     && quiet t_shared && quiet t_fresh   (d) build_recursive met no unbuildable class below its argument.
    For every history and every client s of the context: *)
 Theorem C14_history_independent_guarded :
   forall w0 h s, hist_guard w0 h s = true ->
